@@ -39,6 +39,9 @@ ALBUMART == <<97,108,98,117,109,97,114,116>>
 RECURSIVE DecR(_)
 DecR(n) == IF n < 10 THEN <<48 + n>> ELSE Append(DecR(n \div 10), 48 + (n % 10))
 Dec(n) == DecR(n)
+RECURSIVE ValOfDecR(_, _)
+ValOfDecR(d, acc) == IF d = <<>> THEN acc ELSE ValOfDecR(Tail(d), acc * 10 + (d[1] - 48))
+ValOfDec(d) == ValOfDecR(d, 0)
 NDigits(n) == Len(Dec(n))
 
 \* byte length of a line as MPD serialises it
@@ -76,9 +79,7 @@ ExecPic(pic, embedded, off, idx, dig(_, _, _)) ==
       size == IF embedded THEN pic.embedded ELSE pic.file
       ack  == IF embedded THEN pic.embedded_ack ELSE pic.file_ack IN
   IF ack # 0 THEN [ok |-> FALSE, ls |-> <<AckL(ack, idx, IF ack = 5 THEN <<>> ELSE name, <<115,99,114,105,112,116,101,100,32,101,114,114,111,114>>)>>]
-  ELSE IF size < 0 THEN
-       (IF embedded THEN [ok |-> TRUE, ls |-> <<>>]
-        ELSE [ok |-> FALSE, ls |-> <<AckL(50, idx, name, <<78,111,32,102,105,108,101,32,101,120,105,115,116,115>>)>>])
+  ELSE IF size < 0 THEN [ok |-> TRUE, ls |-> <<>>]         \* no picture from this source: an empty reply
   ELSE IF off > size THEN [ok |-> FALSE, ls |-> <<AckL(2, idx, name, <<66,97,100,32,102,105,108,101,32,111,102,102,115,101,116>>)>>]
   ELSE LET n == Min(pic.limit, size - off) IN
        [ok |-> TRUE, ls |-> <<Fld(SIZE, Dec(size))>>
@@ -87,7 +88,7 @@ ExecPic(pic, embedded, off, idx, dig(_, _, _)) ==
 
 \* ------------------------------------------------------------------ results
 Frame(f, bn, bd) == [f |-> f, bn |-> bn, bd |-> bd]
-Res(t, frames, code, idx, cmd, msg) == [t |-> t, frames |-> frames, code |-> code, idx |-> idx, cmd |-> cmd, msg |-> msg]
+Res(t, frames, code, idx, cmd, msg) == [t |-> t, frames |-> frames, code |-> code, idx |-> idx, cmd |-> cmd, msg |-> msg, kind |-> ""]
 
 \* what a complete reply means to a caller: frames in order, then the error if any
 RECURSIVE ParseReply(_, _, _, _, _)
@@ -158,7 +159,7 @@ ReqIndex(w, c, n) == IF \E i \in 1..Len(w.reqs) : w.reqs[i].c = c /\ w.reqs[i].n
 
 WIssue(w, c, n, kind, cmds, uri) ==
   LET w1 == Chk(w, ReqIndex(w, c, n) = 0, "HARNESS", "request issued twice") IN
-  [w1 EXCEPT !.reqs = Append(@, [c |-> c, n |-> n, kind |-> kind, cmds |-> cmds, uri |-> uri, st |-> "p", rep |-> 0, seen |-> FALSE,
+  [w1 EXCEPT !.reqs = Append(@, [c |-> c, n |-> n, kind |-> kind, cmds |-> cmds, uri |-> uri, st |-> "p", rep |-> 0, seen |-> (kind = "art"),
                                  wasAlive |-> (w.fault = "" /\ w.handles > 0)]),
              !.tmo = FALSE]
 
@@ -287,6 +288,36 @@ ReplyOf(w, ri) == IF \E i \in 1..Len(w.reps) : w.reps[i].req = ri /\ ri > 0
                   THEN CHOOSE i \in 1..Len(w.reps) : w.reps[i].req = ri ELSE 0
 ReplyLines(w, rep) == [i \in 1..(rep.last - rep.first + 1) |-> w.out[rep.first + i - 1].l]
 
+\* ---- C17: album art.  res: t = "art" (code = length, idx = source whose bytes the data equals, msg = MIME, kind = "mime" if present),
+\* "art_none", "ack" (server error propagated), or a connection error.  w.art holds the picture requests the server saw.
+CeilDiv(a, b) == (a + b - 1) \div b
+ArtExpect(pic) ==
+  \* [outcome, src (1 embedded / 2 file / 0), size, reqs: expected sequence of <<embedded?, offset>>]
+  LET Chunks(emb, size) == [k \in 1..(IF size = 0 THEN 1 ELSE CeilDiv(size, pic.limit)) |-> <<emb, (k - 1) * pic.limit>>]
+      fileFlow(pre) ==
+        IF pic.file_ack # 0 THEN [o |-> "ack", code |-> pic.file_ack, src |-> 0, size |-> 0, reqs |-> Append(pre, <<FALSE, 0>>)]
+        ELSE IF pic.file < 0 THEN [o |-> "none", code |-> 0, src |-> 0, size |-> 0, reqs |-> Append(pre, <<FALSE, 0>>)]
+        ELSE [o |-> "art", code |-> 0, src |-> 2, size |-> pic.file, reqs |-> pre \o Chunks(FALSE, pic.file)] IN
+  IF pic.embedded_ack = 5 THEN fileFlow(<<<<TRUE, 0>>>>)
+  ELSE IF pic.embedded_ack # 0 THEN [o |-> "ack", code |-> pic.embedded_ack, src |-> 0, size |-> 0, reqs |-> <<<<TRUE, 0>>>>]
+  ELSE IF pic.embedded < 0 THEN fileFlow(<<<<TRUE, 0>>>>)
+  ELSE [o |-> "art", code |-> 0, src |-> 1, size |-> pic.embedded, reqs |-> Chunks(TRUE, pic.embedded)]
+WArtResolve(w, ri, res) ==
+  LET r == w.reqs[ri]
+      mine == SelectSeq(w.art, LAMBDA a : a.uri = r.uri)
+      seen == [k \in 1..Len(mine) |-> <<mine[k].emb, mine[k].off>>]
+      e == ArtExpect(w.pic) IN
+  IF res.t \in {"closed", "proto"} THEN Chk(w, w.fault # "" \/ w.handles = 0 \/ ~r.wasAlive, "C17", "album art failed with a connection error on a healthy connection")
+  ELSE IF w.fault # "" THEN w      \* after a fault only C08 applies
+  ELSE
+  LET w1 == Chk(w, seen = e.reqs, "C17", "album art requests are not the expected commands at strictly increasing offsets (offset = bytes received so far), with fallback exactly when required")
+  IN CASE e.o = "art" ->
+            Chk(Chk(Chk(w1, res.t = "art" /\ res.code = e.size, "C17", "album art does not have the picture's length"),
+                    res.t # "art" \/ e.size = 0 \/ res.idx = e.src, "C17", "album art bytes are not exactly the picture's bytes"),
+                res.t # "art" \/ (IF e.src = 1 /\ w.pic.hasMime THEN res.kind = "mime" /\ res.msg = w.pic.mime ELSE res.kind = ""), "C17", "MIME type not propagated exactly when the server gave one")
+       [] e.o = "none" -> Chk(w1, res.t = "art_none", "C17", "absence not reported although neither source has data")
+       [] OTHER -> Chk(w1, res.t = "ack" /\ res.code = e.code, "C17", "server error not propagated")
+
 WResolve(w, c, n, res) ==
   LET ri == ReqIndex(w, c, n) IN
   IF ri = 0 THEN V(w, "HARNESS", "resolve of unknown request", "") ELSE
@@ -296,7 +327,7 @@ WResolve(w, c, n, res) ==
       got == pi > 0 /\ w.reps[pi].end <= w.rd /\ ~Poisoned(w, w.reps[pi]) /\ (w.lostAt < 0 \/ w.reps[pi].end <= w.lostAt)
       isErr == res.t \in {"closed", "proto"}
       w2 == IF res.t = "proto" THEN [w1 EXCEPT !.surfaced = TRUE] ELSE w1 IN
-  IF r.kind = "art" THEN w2   \* judged by WArtResolve
+  IF r.kind = "art" THEN WArtResolve(w2, ri, res)
   ELSE IF isErr THEN
      LET w3 == Chk(w2, ~got, "C08", "request resolved with an error although its reply had been completely received")
      IN Chk(w3, w.fault # "" \/ w.handles = 0 \/ ~r.wasAlive, "C01", "request resolved with an error on a healthy connection")
